@@ -450,7 +450,7 @@ func spansTree(analyzed map[string]aast.AnalyzedProgram, o runOpts) (res string)
 	return fmt.Sprintf("OK out=%s", hexs(out.String()))
 }
 
-// culprit candidates: every call / infix / index / member / cast / prefix node of the analysed AST
+// culprit candidates: every function definition and every call / infix / index / member / cast / prefix node of the analysed AST
 // with its source range, from the S-expression form of harness/ast.go.
 func collectCands(mod string, s *Sx, out *[]string) {
 	if s == nil || !s.IsL {
@@ -472,9 +472,13 @@ func collectCands(mod string, s *Sx, out *[]string) {
 			if s.NArgs() >= 4 {
 				detail = s.Arg(3).Atom
 			}
+		case "fn":
+			if s.NArgs() >= 2 {
+				detail = s.Arg(1).Atom
+			}
 		}
 		switch tag {
-		case "call", "infix", "assign", "index", "member", "cast", "prefix", "let":
+		case "call", "infix", "assign", "index", "member", "cast", "prefix", "let", "fn":
 			*out = append(*out, fmt.Sprintf("%s:%s@%s:%s.%s-%s.%s", tag, detail, hexs(mod), sp[0].Atom, sp[1].Atom, sp[2].Atom, sp[3].Atom))
 		}
 	}
